@@ -219,6 +219,65 @@ def _has_two_prio(spec: dict) -> bool:
     return any(count(it["block"]) >= 2 for it in spec["items"])
 
 
+def descriptor(spec: dict) -> dict:
+    """canonical descriptor of a case: the regions of the proposed findings (generators stay outside them)"""
+    callers: dict[str, list] = {}
+    direct: dict[str, set] = {}
+
+    def walk(owner, block):
+        for s in block:
+            if s["k"] == "call":
+                callers.setdefault(s["m"], []).append(s.get("en"))
+                direct.setdefault(owner, set()).add(s["m"])
+            elif s["k"] == "cond":
+                for k, br in enumerate(s["branches"]):
+                    walk((owner, id(s), k), br["block"])
+            elif s["k"] == "trans":
+                walk(s["name"], s["block"])
+
+    for it in spec["items"]:
+        walk(it["name"], it["block"])
+
+    def depth(block) -> int:
+        d = 0
+        for s in block:
+            if s["k"] == "cond":
+                d = max(d, 1 + max([depth(br["block"]) for br in s["branches"]] + [0]))
+        return d
+
+    def shared_levels(owner_calls: set, block) -> bool:
+        """a callee of a body is called again in a branch nested at least two condition levels below it, or a callee
+        of a branch is called again by a branch nested inside it"""
+        for s in block:
+            if s["k"] != "cond":
+                continue
+            for br in s["branches"]:
+                mine = {x["m"] for x in br["block"] if x["k"] == "call"}
+                for s2 in br["block"]:
+                    if s2["k"] == "cond":
+                        for br2 in s2["branches"]:
+                            inner = {x["m"] for x in br2["block"] if x["k"] == "call"}
+                            if inner & owner_calls:
+                                return True
+                if shared_levels(mine, br["block"]) or shared_levels(owner_calls, br["block"]):
+                    return True
+        return False
+
+    nx_multi = deep = shared = False
+    for it in spec["items"]:
+        has_cond = any(s["k"] == "cond" for s in it["block"])
+        if it["k"] == "method" and it.get("nx") and len(callers.get(it["name"], [])) >= 2 and has_cond:
+            nx_multi = True
+        if it["k"] == "method" and depth(it["block"]) >= 3 and any(e is not None for e in callers.get(it["name"], [])):
+            deep = True
+        if shared_levels({x["m"] for x in it["block"] if x["k"] == "call"}, it["block"]):
+            shared = True
+    return {"condition_in_nonexclusive_method_with_several_callers": nx_multi,
+            "condition_nested_three_deep_in_conditionally_called_method": deep,
+            "callee_shared_across_condition_levels": shared,
+            "two_priority_conditions_in_one_body": _has_two_prio(spec)}
+
+
 def est_groups(spec: dict) -> int:
     """number of merged transactions the manager will create (static estimate from the spec)"""
     callers: dict[str, int] = {}
@@ -256,7 +315,10 @@ def gen(pid: str, index: int, seed: int, tier: str) -> dict:
     for attempt in range(50):
         rng = random.Random(f"{pid}/{seed}/{index}/{attempt}")
         spec = sg.gen_c12(rng, kind, P)
-        if est_groups(spec) <= cap:
+        d = descriptor(spec)
+        excluded = (d["condition_in_nonexclusive_method_with_several_callers"] or d["callee_shared_across_condition_levels"]
+                    or d["condition_nested_three_deep_in_conditionally_called_method"])  # regions of proposed findings
+        if est_groups(spec) <= cap and not excluded:
             break
     spec["expect"] = "any" if _has_two_prio(spec) else "ok"
     return spec
@@ -304,7 +366,27 @@ def directed() -> list[dict]:
     return out
 
 
+def _cond1(c, block):
+    return {"k": "cond", "nb": 0, "prio": 0, "branches": [{"c": c, "block": block}]}
+
+
 def witness_specs(kind: str) -> list[dict]:
+    if kind == "deep_nesting_in_conditionally_called_method":
+        return [_mk(5, [], [
+            {"k": "method", "name": "M0", "ready": None, "nx": 0, "block": [_cond1(0, [_cond1(1, [_cond1(2, [])])])]},
+            {"k": "trans", "name": "T0", "ready": 3, "block": [_call("M0", en=4)]}], "c12:witness-deep")]
+    if kind == "callee_shared_across_condition_levels":
+        return [_mk(5, [("x0", None)], [{"k": "trans", "name": "T0", "ready": 4, "block": [
+            _call("x0"),
+            {"k": "cond", "nb": 0, "prio": 0, "branches": [
+                {"c": 0, "block": [{"k": "cond", "nb": 0, "prio": 0, "branches": [
+                    {"c": 2, "block": [_call("x0")]}, {"c": 3, "block": []}]}]},
+                {"c": 1, "block": []}]}]}], "c12:witness-shared")]
+    if kind == "two_priority_conditions_in_one_body":
+        return [dict(_mk(4, [], [{"k": "trans", "name": "T0", "ready": None, "block": [
+            {"k": "cond", "nb": 0, "prio": 1, "branches": [{"c": 0, "block": []}, {"c": 1, "block": []}]},
+            {"k": "cond", "nb": 0, "prio": 1, "branches": [{"c": 2, "block": []}, {"c": 3, "block": []}]}]}],
+            "c12:witness-two-prio"), expect="ok")]
     if kind == "condition_in_nonexclusive_multicaller":
         return [_mk(4, [("x0", None), ("x1", None)], [
             {"k": "method", "name": "M0", "ready": None, "nx": 1, "block": [
@@ -326,7 +408,8 @@ def run(ctx: Check):
     ctx.rule = ("cases = (circuit using condition(), input valuation); non-trivial = circuits with >= 2 merged transactions "
                 "of which one ran in some valuation (blocking/nonblocking, priority, default, overlapping, nested, in methods "
                 "with one or several callers, shared callees)")
-    run_simul(ctx, "C12", gen, monitor, directed(), witness_specs, nontrivial, n_quick=40, n_thorough=1600)
+    run_simul(ctx, "C12", gen, monitor, directed(), witness_specs, nontrivial, n_quick=40, n_thorough=1600,
+              descriptor=descriptor)
 
 
 def replay(ctx: Check, body: dict):
